@@ -263,9 +263,18 @@ def gen_engine(fl, rng, profile="decimals", cover=None, decimals=3, quotes=None,
                 h = [cover.draw("hedge_c", [x for x in cat["hedge"] if x != "any"])] if rng.random() < 0.3 else []
                 cons.append(" ".join([o.name, "is"] + h + [rng.choice(o.terms).name]))
             text = f"if {ant} then {' and '.join(cons)}"
+            w_attr = None
             if rng.random() < 0.35:
-                text += f" with {N.off_unit(decimals):.{decimals}f}"
+                w = N.off_unit(decimals)
+                if w < 0.15:
+                    w = 0.0             # a rule that is switched off by its weight
+                if len(rules) % 2:      # every other weighted rule gets its weight as an attribute (Rule(weight=...) / rule.weight = ...: a free multiplier), not from text
+                    w_attr = float(f"{w:.{decimals}f}")
+                else:
+                    text += f" with {w:.{decimals}f}"
             rule = fl.Rule.create(text)
+            if w_attr is not None:
+                rule.weight = w_attr
             if disabled_rules and rng.random() < 0.2:
                 rule.enabled = False
             rules.append(rule)
